@@ -263,11 +263,13 @@ def run(chk):
                         for side in (n.left, n.comparators[0]):
                             if isinstance(side, ast.Attribute) and dotted(side) and dotted(side).startswith(a.name + "."):
                                 consts.add(dotted(side))
+                            elif isinstance(side, ast.Constant) and isinstance(side.value, (str, int)) and getattr(side, "_from_constant", False):
+                                consts.add(repr(side.value))  # a named class constant, propagated (N9)
                 payloads = set()
                 for m in a.methods.values():
                     for c in source.calls_in(m, attr="wakeupAfter"):
                         pv = source.arg_of(c, 1, "payload")
-                        payloads.add(dotted(pv) if pv is not None else "<none>")
+                        payloads.add("<none>" if pv is None else (repr(pv.value) if isinstance(pv, ast.Constant) else dotted(pv)))
                 # a raise is harmless only where the payload is known to differ from every constant the class schedules (guard facts: polarity / orientation / arm order do not matter)
                 msgp = params_of(f)[1] if len(params_of(f)) > 1 else "msg"
                 def differs(n, cs):
